@@ -68,6 +68,21 @@ def dstep (sp : Space) (toks : List String) : Space × String :=
       | some r => ({ sp with refs := r }, "ok @@ " ++ (if aggStd t then s!"ref-agg-{t}" else s!"ref-nonagg-{t}"))
       | none => (sp, "panic")
     | _, _, _ => (sp, "bad-op")
+  | ["refs", l] =>
+    match parseTriples? l with
+    | some l =>
+      match insertReferences sp l with
+      | some sp' => (sp', "ok " ++ obs sp' ++ " @@ " ++ batchArms "refs" sp.refs l)
+      | none => (sp, "panic")
+    | none => (sp, "bad-op")
+  | ["nodewith", n, l] =>
+    match n.toNat?, parseEntries? l with
+    | some n, some l =>
+      match insertNodeWith sp n l with
+      | some (sp', b) => (sp', s!"ok {boolStr b} " ++ obs sp' ++ " @@ " ++ (if b then "nodewith-new," else "nodewith-refused,") ++
+          batchArms "nodewith" sp.refs (l.map fun (node, t, inv) => if inv then (node, n, t) else (n, node, t)))
+      | none => (sp, "panic")
+    | _, _ => (sp, "bad-op")
   | ["unref", a, b, t] =>
     match a.toNat?, b.toNat?, t.toNat? with
     | some a, some b, some t =>
